@@ -48,9 +48,10 @@ func TestC18BlockIdentity(t *testing.T) {
 		defer D.Remove()
 		D.SwitchTo()
 		type item struct {
-			b    *types.Block
-			desc string
-			real bool
+			b        *types.Block
+			desc     string
+			real     bool
+			bodyOnly bool // genuine identifier and header, altered body
 		}
 		var sched []item
 		var hist []string
@@ -61,8 +62,17 @@ func TestC18BlockIdentity(t *testing.T) {
 			var forged []item
 			for k := 0; k < nforged; k++ {
 				f := vnode.CloneBlock(genuine)
-				kind := rapid.SampledFrom([]string{"stateroot", "timestamp", "drop-tx", "txroot", "prev", "confirms", "coinbase", "id-of-other", "no-header", "no-body"}).Draw(t, "forgeKind")
+				kind := rapid.SampledFrom([]string{"stateroot", "timestamp", "drop-tx", "txroot", "prev", "confirms", "coinbase", "id-of-other", "no-header", "no-body", "body-only"}).Draw(t, "forgeKind")
 				switch kind {
+				case "body-only":
+					// identifier and header genuine, only the body differs (one transaction less, or the last one twice)
+					if len(f.Body.Txs) == 0 {
+						f.Header.Timestamp++
+					} else if rapid.Bool().Draw(t, "dupLast") {
+						f.Body.Txs = append(f.Body.Txs, f.Body.Txs[len(f.Body.Txs)-1])
+					} else {
+						f.Body.Txs = f.Body.Txs[:len(f.Body.Txs)-1]
+					}
 				case "no-header":
 					// a block message need not carry a header at all (the announced identifier is kept)
 					f.Header = nil
@@ -101,10 +111,11 @@ func TestC18BlockIdentity(t *testing.T) {
 					}
 				}
 				// the identifier field is whatever the sender announces: NOT recomputed
-				if f.Header != nil && f.Body != nil && bytes.Equal(digestOf(f), f.Hash) {
+				bodyOnly := kind == "body-only" && len(genuine.Body.Txs) > 0
+				if !bodyOnly && f.Header != nil && f.Body != nil && bytes.Equal(digestOf(f), f.Hash) {
 					continue
 				}
-				forged = append(forged, item{b: f, desc: fmt.Sprintf("forged#%d(%s)", i, kind)})
+				forged = append(forged, item{b: f, desc: fmt.Sprintf("forged#%d(%s)", i, kind), bodyOnly: bodyOnly})
 			}
 			g := item{b: genuine, desc: fmt.Sprintf("genuine#%d", i), real: true}
 			switch rapid.IntRange(0, 2).Draw(t, "order") {
@@ -151,11 +162,20 @@ func TestC18BlockIdentity(t *testing.T) {
 				}
 			}
 		}
+		bodyAlteredBefore := map[string]bool{}
 		for _, it := range sched {
 			err := D.AddPeer(it.b)
+			if it.bodyOnly {
+				bodyAlteredBefore[string(it.b.Hash)] = true
+			}
 			hist = append(hist, fmt.Sprintf("%s=%v", it.desc, err == nil))
 			check("after " + it.desc)
 			if it.real {
+				if err != nil && bodyAlteredBefore[string(it.b.BlockHash())] && rec.IsKnown("altered-body-under-genuine-header") {
+					// known finding: the refusal of the altered copy was remembered under the (genuine) header hash
+					rec.Excluded("altered-body-under-genuine-header")
+					return
+				}
 				if err != nil {
 					t.Fatalf("the genuine block %s was refused (%v) after forged variants announcing its identifier\nhistory: %s", it.desc, err, strings.Join(hist, " | "))
 				}
